@@ -166,6 +166,8 @@ pub struct Runner<'a> {
     pub solo: Option<SoloSpec<'a>>,
     cur: usize,
     cur_client: usize,
+    /// a client id no protocol request of the history uses (for refused-request probes)
+    pub stranger: Uuid,
     /// C09: only the operating client's own ids are abstracted; all others stay concrete
     pub own_only: bool,
     sym_cache: HashMap<Uuid, String>,
@@ -203,7 +205,7 @@ impl<'a> Runner<'a> {
             seen.insert(c.id);
         }
         let rng = Rng::new(hist.seed).fork(0x4D4F4E);
-        Runner { subj, hist, mon, clients, seen, viol: vec![], cov: Cov::default(), rng, log: vec![], walk_every: 1, solo: None, cur: 0, cur_client: 0, own_only: false, sym_cache: HashMap::new() }
+        Runner { subj, hist, mon, clients, seen, viol: vec![], cov: Cov::default(), rng, log: vec![], walk_every: 1, solo: None, cur: 0, cur_client: 0, stranger: Rng::new(hist.seed).fork(0x57A6).uuid(), own_only: false, sym_cache: HashMap::new() }
     }
 
     fn v(&mut self, property: &'static str, msg: String) {
@@ -373,7 +375,8 @@ impl<'a> Runner<'a> {
     }
 
     pub fn dump(&self) -> Dump {
-        let clients: Vec<Uuid> = self.clients.iter().map(|c| c.id).collect();
+        let mut clients: Vec<Uuid> = self.clients.iter().map(|c| c.id).collect();
+        clients.push(self.stranger);
         let mut d = if self.subj.kind.backend == Backend::Mem {
             dump_storage(self.subj.storage.as_ref(), &clients, &self.known_ids())
         } else {
@@ -654,6 +657,38 @@ impl<'a> Runner<'a> {
                     }
                 }
             }
+        }
+    }
+
+    /// C18: requests the server must refuse, framed by full dumps (HTTP subjects only).
+    fn mon_refused(&mut self, c: usize) {
+        use crate::http::{HttpReq, CT_HISTORY, CT_SNAPSHOT};
+        let known = self.clients[c].id.to_string();
+        let stranger = self.stranger.to_string();
+        let latest = self.clients[c].latest();
+        let which = self.rng.usize(10);
+        let (name, req): (&str, HttpReq) = match which {
+            0 => ("add-version with empty body from a never-seen client", HttpReq::new("POST", &format!("/v1/client/add-version/{}", Uuid::nil())).header("X-Client-Id", &stranger).header("Content-Type", CT_HISTORY)),
+            1 => ("add-version with empty body", HttpReq::new("POST", &format!("/v1/client/add-version/{latest}")).header("X-Client-Id", &known).header("Content-Type", CT_HISTORY)),
+            2 => ("add-version with a wrong content type from a never-seen client", HttpReq::new("POST", &format!("/v1/client/add-version/{}", Uuid::nil())).header("X-Client-Id", &stranger).header("Content-Type", "text/plain").body(vec![1, 2, 3])),
+            3 => ("add-version with a wrong content type", HttpReq::new("POST", &format!("/v1/client/add-version/{latest}")).header("X-Client-Id", &known).header("Content-Type", CT_SNAPSHOT).body(vec![1, 2, 3])),
+            4 => ("add-snapshot with empty body", HttpReq::new("POST", &format!("/v1/client/add-snapshot/{latest}")).header("X-Client-Id", &known).header("Content-Type", CT_SNAPSHOT)),
+            5 => ("add-snapshot with a wrong content type", HttpReq::new("POST", &format!("/v1/client/add-snapshot/{latest}")).header("X-Client-Id", &known).header("Content-Type", CT_HISTORY).body(vec![9; 20])),
+            6 => ("add-version without a client id", HttpReq::new("POST", &format!("/v1/client/add-version/{latest}")).header("Content-Type", CT_HISTORY).body(vec![1])),
+            7 => ("add-version with a malformed parent id", HttpReq::new("POST", "/v1/client/add-version/not-a-uuid").header("X-Client-Id", &known).header("Content-Type", CT_HISTORY).body(vec![1])),
+            8 => ("add-snapshot from a never-seen client", HttpReq::new("POST", &format!("/v1/client/add-snapshot/{latest}")).header("X-Client-Id", &stranger).header("Content-Type", CT_SNAPSHOT).body(vec![7; 30])),
+            _ => ("request to an unknown route", HttpReq::new("POST", "/v1/client/add-version").header("X-Client-Id", &known).header("Content-Type", CT_HISTORY).body(vec![1])),
+        };
+        let before = self.dump();
+        let resp = self.subj.http(&req);
+        self.cov.evaluations += 1;
+        let after = self.dump();
+        self.cov.hit(format!("frame:refused:{name}:status={}", resp.status));
+        if (400..500).contains(&resp.status) && before != after {
+            self.v("C18", format!(
+                "refused request ({name}: {}) on {} was answered {} but stored state changed: {}",
+                req.describe(), self.subj.kind.name(), resp.status, before.diff(&after)
+            ));
         }
     }
 
@@ -1022,11 +1057,18 @@ impl<'a> Runner<'a> {
                 // ---- C18
                 if self.mon.frame {
                     let declined = matches!(req, Req::AddSnapshot { .. }) && matches!(resp, Resp::SnapOk) && {
-                        // declined iff the stored snapshot is not the uploaded pair
+                        // declined by the acceptance rule (the unspecified corner is judged by what
+                        // the subject did: declined iff the stored snapshot is not the uploaded pair)
                         let (uv, ud) = uploaded.as_ref().unwrap();
-                        let now = self.clients[c].snap.clone();
-                        let is_new = now.as_ref().map(|s| s.vid == *uv && s.data_len == ud.len() && s.data_hash == crate::dump::hash_bytes(ud)).unwrap_or(false);
-                        !is_new
+                        match snap_predicate(&pre, *uv) {
+                            SnapPred::Decline => true,
+                            SnapPred::Accept => false,
+                            SnapPred::Corner => {
+                                let now = self.clients[c].snap.clone();
+                                let is_new = now.as_ref().map(|s| s.vid == *uv && s.data_len == ud.len() && s.data_hash == crate::dump::hash_bytes(ud)).unwrap_or(false);
+                                !is_new
+                            }
+                        }
                     };
                     if self.non_mutating(req, &resp) || declined {
                         let after = self.dump();
@@ -1118,6 +1160,9 @@ impl<'a> Runner<'a> {
             }
 
             // ---- per-op global monitors
+            if self.mon.frame && self.subj.kind.entry == Entry::Http && self.rng.pct(30) {
+                self.mon_refused(c);
+            }
             if self.mon.chain && (i % self.walk_every == 0 || i + 1 == ops.len()) {
                 let all = self.walk_every > 1 || i % 8 == 7 || i + 1 == ops.len() || reopened;
                 self.mon_chain(if all { None } else { Some(c) });
